@@ -24,6 +24,43 @@ BUDGET = {'quick': 900, 'thorough': 5400}
 NB3 = 64
 
 
+NAME_SCHEMES = {
+    'frozensets': lambda i: frozenset('xyz'[i]),            # pairwise incomparable under <
+    'mixed': lambda i: (0, 'mid', ('end', 1))[i],
+    'strings': lambda i: ('s', '', 'S ')[i],
+    'tuples': lambda i: (i, None),
+}
+ATOM_MAPS = [{'p': 'door open', 'q': 'door'}, {'p': 'S', 'q': 'L'}, {'p': 'True', 'q': 'p q'}, {'p': 'q', 'q': 'p'}]
+
+
+def rename_atoms(f, m):
+    if f[0] == 'ap':
+        return ('ap', m.get(f[1], f[1]))
+    if f[0] in ('t', 'f'):
+        return f
+    return (f[0],) + tuple(rename_atoms(x, m) for x in f[1:])
+
+
+def named_instances(k):
+    """(library structure, names, atom map) for every naming scheme x atom map; with the blank-containing
+    atom map every state that has q additionally carries the label 'open', so that the label sets
+    {'door','open'} and {'door open'} both occur."""
+    out = []
+    for scheme in sorted(NAME_SCHEMES):
+        names = [NAME_SCHEMES[scheme](i) for i in range(k.n)]
+        for m in ATOM_MAPS:
+            L = {}
+            for i in range(k.n):
+                labs = [m.get(a, a) for a in k.lab[i]]
+                if m['p'] == 'door open' and 'q' in k.lab[i]:
+                    labs.append('open')
+                L[names[i]] = labs
+            from pyModelChecking import Kripke
+            Kl = Kripke(S=names, R=[(names[i], names[j]) for i in range(k.n) for j in k.succ[i]], L=L)
+            out.append((Kl, names, m, scheme))
+    return out
+
+
 def scope(tier, seed):
     d = {'A': 'all 148 labelled K(<=2) x all 100 path formulas of size<=1 over {p,q,true,false}',
          'B': '82 representatives of K(<=2) x all 4224 path formulas of size 2 over 4 leaves',
@@ -35,6 +72,12 @@ def scope(tier, seed):
                 % len(spaces.negated_path()),
          'EDIT': 'histories query / edit the same object (one added edge or toggled label) / query on the 82 '
                  'representatives x 28 formulas',
+         'NAMES': 'representatives x 4 state-naming schemes (incomparable frozensets, mixed types, strings incl. the '
+                  'empty one, tuples) x 4 atom renamings (names with blanks whose joined label sets collide, '
+                  'capitals, look-alikes of constants, p/q swapped) x size<=1 formulas',
+         'MED': '40 structures with 5-7 states x A g for g of size 1, a stride of size 2, depth-3 towers',
+         'TOWER': 'a seed-indexed quarter of the 256 depth-4 towers of not/X/F/G over p and of the wide and/or on '
+                  'the 82 representatives (thorough: the same, other seeds cover the rest)',
          'C': 'representatives of K(3) with labels over {p} (one atom) x all 100 formulas size<=1',
          'D': 'size-3 formulas over {p,q}: block(s) of %d x 82 representatives of K(<=2)' % NB3}
     if tier == 'thorough':
@@ -62,6 +105,12 @@ def plan(tier, seed):
         sh.append(['EDIT', lo, hi])
     for lo, hi in chunks(82, 4):
         sh.append(['S0', lo, hi])
+    for i in range(40):
+        sh.append(['MED', i])
+    for lo, hi in chunks(82, 4):
+        sh.append(['NAMES', lo, hi])
+    for lo, hi in chunks(82, 2):
+        sh.append(['TOWER', lo, hi])
     for lo, hi in chunks(50625, 1024):
         sh.append(['G4', lo, hi, (seed % 16) if tier == 'quick' else None])
     n3 = len(_k3_one_atom())
@@ -148,6 +197,50 @@ def run_shard(shard, tier, seed, acc):
                 Kl = lib.to_kripke(k)
                 for g in (forms if miss is not None else forms[:2]):
                     check_one(k, Kl, g, acc, audit=False)
+        return
+    if kind == 'NAMES':
+        gs = spaces.path_by_size(0, spaces.LEAVES2) + spaces.path_by_size(1, spaces.LEAVES2)
+        for k in _reps2()[shard[1]:shard[2]] + spaces.kripke_reps(3)[shard[1] * 11::450]:
+            sem = Sem(k)
+            for Kl, names, m, scheme in named_instances(k):
+                inv = dict((repr(x), i) for i, x in enumerate(names))
+                for g in gs:
+                    f = ('A', g)
+                    ref = sem.sat(f)
+                    r = call(lib.LTL.modelcheck, Kl, lib.build(rename_atoms(f, m), lib.LTL))
+                    acc.ev(1, 1 if 0 < len(ref) < k.n else 0)
+                    got = None
+                    if r[0] == 'ok':
+                        try:
+                            got = frozenset(inv[repr(x)] for x in r[1])
+                        except Exception:
+                            got = None
+                    if got != ref:
+                        acc.violation('wrong-answer', kcase(k, f, names=scheme, atom_map=m), sorted(ref),
+                                      r[1:] if r[0] != 'ok' else sorted(map(repr, r[1])))
+        acc.sample({'states': 'frozensets / mixed types / strings / tuples', 'atoms': ['door open', 'door', 'open']})
+        return
+    if kind == 'MED':
+        k = spaces.medium_kripkes(seed)[shard[1]]
+        Kl = lib.to_kripke(k)
+        gs = spaces.path_by_size(1, spaces.LEAVES2) + spaces.path_by_size(2, spaces.LEAVES2)[(seed % 32)::32] + \
+            spaces.path_towers(3)[(seed % 6)::6]
+        for g in gs:
+            if deadline_passed():
+                acc.capped()
+                return
+            check_one(k, Kl, g, acc, audit=False)
+        acc.sample({'k': k.to_json(), 'formulas': 'A g: size 1, stride of size 2, depth-3 towers'})
+        return
+    if kind == 'TOWER':
+        gs = spaces.path_towers(4)[(seed % 4)::4] + spaces.wide_props()[(seed % 4)::4]
+        for k in _reps2()[shard[1]:shard[2]]:
+            Kl = lib.to_kripke(k)
+            for j, g in enumerate(gs):
+                if j % 32 == 0 and deadline_passed():
+                    acc.capped()
+                    return
+                check_one(k, Kl, g, acc, audit=False)
         return
     if kind == 'S0':
         gs = spaces.path_by_size(0, spaces.LEAVES2) + spaces.path_by_size(1, spaces.LEAVES2)
@@ -247,6 +340,20 @@ def replay(art):
     k = spaces.K.from_json(case['k'])
     Kl = lib.to_kripke(k)
     f = spaces.from_jsonable(case['f'])
+    if case.get('atom_map') is not None:
+        sem = Sem(k)
+        for Kl2, names, m, scheme in named_instances(k):
+            if scheme == case['names'] and m == case['atom_map']:
+                inv = dict((repr(x), i) for i, x in enumerate(names))
+                r = call(lib.LTL.modelcheck, Kl2, lib.build(rename_atoms(f, m), lib.LTL))
+                got = None
+                if r[0] == 'ok':
+                    try:
+                        got = frozenset(inv[repr(x)] for x in r[1])
+                    except Exception:
+                        got = None
+                return {'violates': got != sem.sat(f), 'expected': sorted(sem.sat(f)), 'got': r[1:] if r[0] != 'ok' else sorted(map(repr, r[1]))}
+        return {'violates': False}
     if art['kind'] == 'wrong-answer-after-edit':
         edit = tuple(case['edit'])
         k2 = [x for e, x in spaces.k_edits(k) if list(e) == list(edit)][0]
